@@ -3,6 +3,7 @@ package props
 import (
 	"bytes"
 	"fmt"
+	"io"
 	"testing"
 
 	"pgregory.net/rapid"
@@ -19,6 +20,9 @@ type caseC17 struct {
 	N      int     `json:"n"` // run length, |X|, or random length
 	B      byte    `json:"b,omitempty"`
 	Seed   uint64  `json:"seed,omitempty"`
+	// Piece > 0: the input is handed over in Write calls of Piece bytes (the
+	// statement only excludes intermediate Flush calls)
+	Piece int `json:"piece,omitempty"`
 }
 
 func drawC17(t *rapid.T) caseC17 {
@@ -76,6 +80,12 @@ func drawC17(t *rapid.T) caseC17 {
 			c.N = rapid.IntRange(c.N/2, c.N).Draw(t, "n")
 		}
 	}
+	if rapid.Bool().Draw(t, "pieces") {
+		c.Piece = rapid.SampledFrom([]int{1, 7, 256, 1000, 4096, 32768, 65536, 100000}).Draw(t, "piece")
+		if c.Piece < 7 && c.N > 150000 {
+			c.Piece = 7
+		}
+	}
 	if c.Fmt == "xz" {
 		total := int64(c.N)
 		if c.Family == "xx" {
@@ -118,7 +128,23 @@ func (c caseC17) input() []byte {
 	return x
 }
 
-func compressWith(format string, cfg gen.Cfg, data []byte) ([]byte, error) {
+// writePieces hands data to w in Write calls of piece bytes (0: one call).
+func writePieces(w io.Writer, data []byte, piece int) error {
+	if piece <= 0 {
+		_, err := w.Write(data)
+		return err
+	}
+	for len(data) > 0 {
+		k := min(piece, len(data))
+		if _, err := w.Write(data[:k]); err != nil {
+			return err
+		}
+		data = data[k:]
+	}
+	return nil
+}
+
+func compressWith(format string, cfg gen.Cfg, data []byte, piece int) ([]byte, error) {
 	var buf bytes.Buffer
 	switch format {
 	case "xz":
@@ -126,7 +152,7 @@ func compressWith(format string, cfg gen.Cfg, data []byte) ([]byte, error) {
 		if err != nil {
 			return nil, err
 		}
-		if _, err := w.Write(data); err != nil {
+		if err := writePieces(w, data, piece); err != nil {
 			return nil, err
 		}
 		if err := w.Close(); err != nil {
@@ -137,7 +163,7 @@ func compressWith(format string, cfg gen.Cfg, data []byte) ([]byte, error) {
 		if err != nil {
 			return nil, err
 		}
-		if _, err := w.Write(data); err != nil {
+		if err := writePieces(w, data, piece); err != nil {
 			return nil, err
 		}
 		if err := w.Close(); err != nil {
@@ -148,7 +174,7 @@ func compressWith(format string, cfg gen.Cfg, data []byte) ([]byte, error) {
 		if err != nil {
 			return nil, err
 		}
-		if _, err := w.Write(data); err != nil {
+		if err := writePieces(w, data, piece); err != nil {
 			return nil, err
 		}
 		if err := w.Close(); err != nil {
@@ -160,7 +186,7 @@ func compressWith(format string, cfg gen.Cfg, data []byte) ([]byte, error) {
 
 func checkC17(c caseC17, rec *ev.Rec) *ev.Failure {
 	data := c.input()
-	out, err := compressWith(c.Fmt, c.Cfg, data)
+	out, err := compressWith(c.Fmt, c.Cfg, data, c.Piece)
 	if err != nil {
 		rec.Class("write_fails(other property)")
 		return nil
@@ -186,6 +212,9 @@ func checkC17(c caseC17, rec *ev.Rec) *ev.Failure {
 			"family", c.Family, "matcher", m, "fmt", c.Fmt)
 	}
 	rec.Class("family="+c.Family, "matcher="+m, "fmt="+c.Fmt, "family="+c.Family+",matcher="+m)
+	if c.Piece > 0 {
+		rec.Class("written_in_pieces", fmt.Sprintf("piece=%d", c.Piece))
+	}
 	if c.Family == "xx" && c.N >= c.Cfg.DictCap-300 {
 		rec.Class("xx_at_dictionary_edge")
 	}
@@ -205,7 +234,7 @@ func checkC17(c caseC17, rec *ev.Rec) *ev.Failure {
 
 func TestC17(t *testing.T) {
 	rec := ev.New("C17", "exploration")
-	rec.Rule = "rapid draws members of the three families of the statement: (a) runs of any byte value and length (BinaryTree within its work budget) under drawn lc/lp/pb, DictCap, BufSize, BlockSize, check, all three formats; (b) X||X for pseudo-random X from a drawn seed, 4 <= |X| <= DictCap incl. |X| within 300 bytes of DictCap, single block; (c) pseudo-random data with DictCap >= 64 KiB, xz and LZMA2 without Flush; oracle: out <= n/500 + A, out <= 1.15|X| + A, out <= n + n/500 + A with A = 128 + 64 per block; non-trivial = input >= 4096 bytes; distinct = hash of the case"
+	rec.Rule = "rapid draws members of the three families of the statement: (a) runs of any byte value and length (BinaryTree within its work budget) under drawn lc/lp/pb, DictCap, BufSize, BlockSize, check, all three formats; (b) X||X for pseudo-random X from a drawn seed, 4 <= |X| <= DictCap incl. |X| within 300 bytes of DictCap, single block; (c) pseudo-random data with DictCap >= 64 KiB, xz and LZMA2 without Flush; half the cases hand the input over in Write calls of 1 to 100000 bytes; oracle: out <= n/500 + A, out <= 1.15|X| + A, out <= n + n/500 + A with A = 128 + 64 per block; non-trivial = input >= 4096 bytes; distinct = hash of the case"
 	rec.Assumptions = []string{"BinaryTree runs <= 12000 bytes (quick) / 30000 (thorough)", "xz block sizes are 0 (single block) or >= 64 KiB for families a and c: the statement does not quantify over block sizes, and with tiny blocks the container overhead per block (header 12 + SHA-256 32 + index record) alone exceeds the allowance"}
 	drive(t, rec, drawC17, checkC17)
 }
